@@ -1038,12 +1038,11 @@ class PlusMinusPlugin(Plugin):
         """
 
         required = syntax.AndGroup()
-        optional = syntax.OrGroup()
+        # Nodes that are neither required nor banned stay in a group of the
+        # same type as the one we are processing (e.g. if it is an AndGroup
+        # everything is "required" by default)
+        optional = group.empty_copy()
         banned = syntax.OrGroup()
-
-        # If the top-level group is an AndGroup we make everything "required" by default
-        if isinstance(group, syntax.AndGroup):
-            optional = syntax.AndGroup()
 
         # Which group to put the next node we see into
         next = optional
@@ -1055,6 +1054,10 @@ class PlusMinusPlugin(Plugin):
                 # -: put the next node in the banned group
                 next = banned
             else:
+                # Plus and minus inside a sub-group (parentheses) apply to
+                # that sub-group
+                if isinstance(node, syntax.GroupNode):
+                    node = self.do_plusminus(parser, node)
                 # Anything else: put it in the appropriate group
                 next.append(node)
                 # Reset to putting things in the optional group by default
